@@ -360,6 +360,27 @@ def union_compare_rule(rep):
     rep.floor("C09.f", n, 1)
 
 
+def chunk_normalisation_rule(rep, f):
+    rep.rule("C09.g", "the whiteSpace facet is applied to an element's value as a whole although it arrives in chunks (text, CDATA "
+             "sections, entity boundaries): SchemaValidator::normalizeWhiteSpace keeps the collapse state between chunks unless it is "
+             "told the value is standalone; in the character-data paths of the schema-aware scanners (sendCharData, scanCDSection) "
+             "it is never called with standalone = true — that would drop the white space at a chunk boundary (`12<![CDATA[ 34]]>` "
+             "validating as the integer 1234)")
+    n = 0
+    for x in f.kind("call"):
+        c = x["x"]
+        q = x["_fn"]["q"]
+        if c[1].split("::")[-1] != "normalizeWhiteSpace" or q.split("::")[-1] not in ("sendCharData", "scanCDSection"):
+            continue
+        n += 1
+        a = c[3][3] if len(c[3]) > 3 else ["def", ["i", 0]]
+        standalone = not (a[0] == "def" or a == ["i", 0])
+        rep.ob("C09.g", "%s@normalizeWhiteSpace:%s" % (q, x.get("l")), not standalone, "chunk-wise (collapse state carried over)" if not standalone else
+               "%s (line %s) normalises a chunk of element content as a standalone value: white space at the boundary to the neighbouring "
+               "chunk is dropped instead of collapsed" % (q, x.get("l")), "%s:%s" % (x["_fn"]["file"], x.get("l", 0)))
+    rep.floor("C09.g", n, 5)
+
+
 def run(rep):
     f = core.library_facts()
     rep.units.update(os.path.relpath(t, core.REPO) for t in f.tus)
@@ -369,6 +390,7 @@ def run(rep):
     duration_order_rule(rep, f)
     base64_filler_rule(rep)
     union_compare_rule(rep)
+    chunk_normalisation_rule(rep, f)
     diag.run(rep, f, "C09")
     dispatch.run(rep, f, "C09")
     rep.undecided += ["lexical and value-space verdicts of each validator, facet arithmetic, comparison order (consistency, indeterminate cases), "
